@@ -92,24 +92,24 @@ def canonical_number(t: str) -> bool:
         return False
 
 
+DATE_SHAPE = re.compile(r"\d{4}-\d{2}-\d{2}\Z")
+ISO_SHAPE = re.compile(r"\d{4}-\d{2}-\d{2}(?:T\d{2}:\d{2}:\d{2}(?:Z|[+-]\d{2}:\d{2})?)?\Z")
+
+
 def kf_date_fragment(kind, dinfo, t):
-    """F34: DATE / ISO8601 fragments derive bare digit-hyphen texts (the reader splits them into numbers)
-    and calendar-impossible dates."""
-    return kind in ("DATE", "ISO8601")
-
-
-def kf_const_python_spelling(kind, dinfo, t):
-    """C13N1: CONST of a bool / None / non-finite float is compiled to Python's str() spelling
-    (True False None inf nan), not to the OCTAVE spelling the reader types back to that value."""
-    return kind == "CONST" and dinfo.get("pytype") in ("bool", "NoneType", "float-nonfinite")
+    """F34: the DATE / ISO8601 fragments derive bare digit-hyphen texts of the documented shape
+    YYYY-MM-DD[Thh:mm:ss[Z|±hh:mm]] (the reader splits them into numbers; calendar-impossible ones are
+    derivable too).  A derivation of any *other* shape is not covered by the finding."""
+    return (kind == "DATE" and bool(DATE_SHAPE.match(t))) or (kind == "ISO8601" and bool(ISO_SHAPE.match(t)))
 
 
 def kf_literal_not_bare_word(kind, dinfo, t):
     """C13N2: CONST/ENUM literals are emitted as raw text, never in OCTAVE value syntax: a string
     value whose bare spelling is not a plain word (quotes, operators, blanks, digits first, reserved
-    words …) — for ENUM: neither a plain word nor a canonical number — is misread or refused."""
+    words …) — for ENUM: neither a plain word nor a canonical number — is misread or refused; likewise a
+    CONST float that Python prints as inf / nan."""
     if kind == "CONST":
-        return dinfo.get("pytype") == "str" and not bare_word(t)
+        return (dinfo.get("pytype") == "str" and not bare_word(t)) or dinfo.get("pytype") == "float-nonfinite"
     if kind == "ENUM":
         return not (bare_word(t) or canonical_number(t))
     return False
@@ -121,7 +121,7 @@ def kf_number_over_int_digit_limit(kind, dinfo, t):
     return kind == "NUMBER" and bool(re.fullmatch(r"-?\d+", t)) and len(t.lstrip("-")) > 4300
 
 
-CLASSES = [("F34", kf_date_fragment), ("C13N1", kf_const_python_spelling), ("C13N2", kf_literal_not_bare_word), ("C13N3", kf_number_over_int_digit_limit)]
+CLASSES = [("F34", kf_date_fragment), ("C13N2", kf_literal_not_bare_word), ("C13N3", kf_number_over_int_digit_limit)]
 
 # --------------------------------------------------------------------------------------------------
 # worker: one case on the real code
@@ -138,7 +138,8 @@ def deciding_info(chain):
             pt = type(v).__name__
             if isinstance(v, float) and not math.isfinite(v):
                 pt = "float-nonfinite"
-            return "CONST", {"pytype": pt, "members": [str(v)]}
+            spelled = ("true" if v else "false") if isinstance(v, bool) else ("null" if v is None else str(v))   # documented spelling
+            return "CONST", {"pytype": pt, "members": [spelled]}
     for c in cs:
         if isinstance(c, C.EnumConstraint):
             return "ENUM", {"members": list(c.allowed_values)}
@@ -230,6 +231,10 @@ def eval_case(case):
     if len([c for c in chain.constraints if not isinstance(c, (C.RequiredConstraint, C.OptionalConstraint))]) != 1:
         res["skip"] = "more-than-one-specific-member"
         return res
+    if any(isinstance(c, C.RequiredConstraint) for c in chain.constraints) and \
+            any(isinstance(c, C.ConstConstraint) and (c.const_value is None or c.const_value == "") for c in chain.constraints):
+        res["skip"] = "unsatisfiable-chain (REQ with CONST null/empty: no value at all is accepted)"
+        return res
     res["chain_enc"] = G.enc_chain(chain)
     try:
         g = GBNFCompiler().compile_schema(schema, include_envelope=False)
@@ -276,7 +281,7 @@ def eval_case(case):
     res["n_derivable"] = len(samples)
     strings = sorted(samples) + sorted(negatives - samples)
     res["lean"] = [{"op": "rule_match", "text": g, "rule": rule, "strings": [s for s in strings if len(s) <= 600], "fuel": 1400}]
-    res["py_match"] = [s in samples for s in strings if len(s) <= 600]
+    res["py_match"] = [m.fullmatch_alts(alts, s) for s in strings if len(s) <= 600]      # Python matcher on every string (near-misses may be derivable)
     # --- oracle: read back, chain, validator --------------------------------------------------------
     for t in sorted(samples):
         st, val = read_back(name, t)
@@ -360,9 +365,12 @@ def run(ctx: vlib.Ctx):
     drv = proj.driver()
     findings = vlib.load_findings(ctx.prop)
     if ctx.replay:
-        cases = [json.loads(open(ctx.replay).read())["case"]]
+        d = json.loads(open(ctx.replay).read())
+        cases = [d["case"]["case"] if "case" in d.get("case", {}) else d["case"]] if "case" in d else []
     else:
-        cases = [f["witness"]["case"] for f in findings] + gen_cases(ctx)
+        corpus = [json.loads(f.read_text())["case"] for f in sorted((vlib.VERIF / "corpus" / ctx.prop).glob("*.json"))]
+        cases = [f["witness"]["case"] for f in findings] + corpus + gen_cases(ctx)
+        ctx.extra["corpus_cases"] = len(corpus)
     n_known = 0 if ctx.replay else len(findings)
     results = vlib.pmap(eval_case, cases)
 
